@@ -10,6 +10,7 @@ from dsim import kernel, runner
 prop, path = sys.argv[1].upper(), sys.argv[2]
 t0 = int(sys.argv[3]) if len(sys.argv) > 3 else 0
 t1 = int(sys.argv[4]) if len(sys.argv) > 4 else 10**9
+WATCH = [w for w in os.environ.get("TRACE_WATCH", "").split(",") if w]      # internal register names to print as well
 doc = json.load(open(path))
 scn = doc.get("scenario", doc)
 orig_run = kernel.Bench.run
@@ -18,6 +19,26 @@ orig_run = kernel.Bench.run
 def run(self, actors, max_cycles, *, init=None):
     bench = self
     last = {}
+
+    watched = []
+    if WATCH:
+        seen = set()
+        for frag in kernel._walk_fragments(bench.sim._design.fragment):
+            stmts = frag.statements
+            for group in (stmts.values() if isinstance(stmts, dict) else [stmts]):
+                for stmt in group:
+                    try:
+                        lhs = stmt._lhs_signals()
+                    except Exception:
+                        continue
+                    for sig in lhs:
+                        if id(sig) not in seen and sig.name in WATCH:
+                            seen.add(id(sig))
+                            watched.append(sig)
+        st_ = bench.sim._engine._state
+        wslots = [(s_.name, st_.slots[st_.get_signal(s_)]) for s_ in watched]
+    else:
+        wslots = []
 
     class Tracer:
         def drive(self, t):
@@ -34,9 +55,9 @@ def run(self, actors, max_cycles, *, init=None):
                     except Exception:
                         st[s.name] = v
                 ins = {n: sl.curr for n, sl in zip(bench.in_names, bench._in_slots)}
-                cur = {"in": ins, "out": dict(sample), "fsm": st}
+                cur = {"in": ins, "out": dict(sample), "fsm": st, "reg": {n: sl.curr for n, sl in wslots}}
                 parts = []
-                for grp in ("in", "out", "fsm"):
+                for grp in ("in", "out", "fsm", "reg"):
                     ch = {k: v for k, v in cur[grp].items() if last.get(grp, {}).get(k) != v}
                     if ch:
                         parts.append(grp + ":" + " ".join(f"{k}={v:#x}" if isinstance(v, int) and v > 9 else f"{k}={v}" for k, v in ch.items()))
